@@ -24,10 +24,11 @@ class AssumptionFailed(Exception):
 
 
 class Claim:
-    __slots__ = ('name', 'kind', 'a', 'b', 't', 'note')
+    __slots__ = ('name', 'kind', 'a', 'b', 't', 'note', 'hyps')
 
     def __init__(self, name, kind, a=None, b=None, t=None, note=None):
         self.name, self.kind, self.a, self.b, self.t, self.note = name, kind, a, b, t, note
+        self.hyps = None      # optional: the only hypotheses this claim may use (domain obligations)
 
 
 def _terms(x):
